@@ -67,6 +67,44 @@ def rand_state(rng, names, safe_names, maxdepth=4, exec_extra=True):
     return st
 
 
+SCALES = [99, 100, 101, 255, 256, 257, 1023, 1024, 1025, 4095, 4096, 4097, 8193]
+
+
+def scale_up(rng, st, names):
+    """size thresholds: one component of the state is made LARGE (a deep stack, a long name incl. multi-byte
+    characters, a code item of many points, a long vector) with a size at / around a power of two or a round
+    number - where a cap, a buffer size or an algorithm switch would sit"""
+    n = rng.choice(SCALES)
+    k = rng.randrange(7)
+    if k == 0:
+        fld = rng.choice(["bool", "int", "float", "name", "code", "exec", "bvec", "ivec", "fvec"])
+        fill = {"bool": lambda i: i % 3 == 0, "int": lambda i: i % 7 - 3, "float": lambda i: fbits(float(i % 5)), "name": lambda i: "n%d" % (i % 4),
+                "code": lambda i: Z(i % 9), "exec": lambda i: Z(i % 9), "bvec": lambda i: [i % 2 == 0], "ivec": lambda i: [i % 5], "fvec": lambda i: [fbits(1.0)]}[fld]
+        st[fld] = list(st[fld][:3]) + [fill(i) for i in range(n)]
+        if rng.random() < 0.5: st["int"] = [rng.choice([n - 1, n, n + 1, 2147483647])] + list(st["int"])
+    elif k == 1:
+        unit = rng.choice(["a", "ab", "\u00e9", "\u65e5\u672c", "x\u00e9"])
+        st["name"] = [(unit * (n // len(unit.encode()) + 1))[: max(1, n // len(unit.encode()))] + rng.choice(["", "z", "\u00e9"]),
+                      (unit * (n // len(unit.encode()) + 1))] + list(st["name"])
+    elif k == 2:
+        flat = L(*[rng.choice([Z(i % 5), N("q"), I("NOOP")]) for i in range(n - 1)])
+        st["code"] = [flat] + list(st["code"]); st["exec"] = list(st["exec"]) + [flat]
+        st["int"] = [rng.choice([n - 1, n, n // 2, 0, 1])] + list(st["int"])
+    elif k == 3:
+        t = Z(1)
+        for _ in range(min(n, 300)): t = L(t, Z(2))
+        st["code"] = [t] + list(st["code"])
+    elif k == 4:
+        st["ivec"] = [[(i * 7) % 11 - 5 for i in range(n)], [1] * min(n, 50)] + list(st["ivec"])
+        st["int"] = [rng.choice([n - 1, n, 0, -1])] + list(st["int"])
+    elif k == 5:
+        st["fvec"] = [[fbits(float((i * 7) % 11)) for i in range(n)]] + list(st["fvec"])
+        st["bvec"] = [[i % 3 == 0 for i in range(n)]] + list(st["bvec"])
+    else:
+        st["exec"] = list(st["exec"]) + [Z(i % 4) for i in range(n)]
+    return st
+
+
 # instructions that the single-step differential sweep must not run blindly
 UNSAFE = {"EXEC.CMD"}                       # spawns a process (and sleeps 1 s) when it has its operands
 RANDOM = {"BOOLEAN.RAND", "INTEGER.RAND", "FLOAT.RAND", "CODE.RAND", "NAME.RAND", "NAME.RANDBOUNDNAME",
@@ -520,6 +558,8 @@ def step_case(rng, name, names, safe_names, profile=None):
         st = shape_vector_case(rng, name, st)
     if name == "FLOATVECTOR.SINE":
         st["int"] = [rng.randrange(-3 if SINE_NEGATIVE else 0, 13) for _ in st["int"]]
+    if name not in ALLOCATING and rng.random() < 0.05:
+        st = scale_up(rng, st, names)
     if name in ALLOCATING:
         st = tame_ints(st)
         st["float"] = [fbits(rng.choice([0.0, 0.5, 1.0, 1.5, 2.0, 3.0])) for _ in st["float"]]
